@@ -30,9 +30,8 @@ pub fn probe_exit(sim: &mut Sim) {
         work.push(('a', id.clone(), a.owner.clone(), pay));
     }
     for (id, b) in &book.bids {
-        if b.v2 {
-            continue;
-        }
+        // a bid still in the old event-log format after an accepted migration is an order carried
+        // over from an earlier version: it must be able to leave like any other
         let pay = vec![(b.owner.clone(), b.quote_denom.clone(), b.unspent_quote() + b.unspent_fee())];
         work.push(('b', id.clone(), b.owner.clone(), pay));
     }
